@@ -196,8 +196,8 @@ pub fn run(ctx: &Ctx) {
     let no = orders.len() as u64;
     indexed_stage(ctx, "exhaustive-orders", no, |i| orders[i as usize].clone(), |ops, local| run_session(ops, true, local));
     ctx.extra("exhaustive_stage", json!({"growth_pairs_up_to": nmax, "single_request_sessions": n, "fetch_order_sessions": no, "exhaustive": true}));
-    random_stage(ctx, "random", ctx.tier.pick(6_000, 120_000), || session_strategy(40), |ops: &Vec<SOp>, local| run_session(ops, true, local));
-    random_stage(ctx, "big", ctx.tier.pick(48, 800), big_session_strategy, |ops: &Vec<SOp>, local| run_session(ops, false, local));
+    random_stage(ctx, "random", ctx.tier.pick(6_000, 400_000), || session_strategy(40), |ops: &Vec<SOp>, local| run_session(ops, true, local));
+    random_stage(ctx, "big", ctx.tier.pick(48, 2_000), big_session_strategy, |ops: &Vec<SOp>, local| run_session(ops, false, local));
 }
 
 pub fn replay(case: &Value) -> Check {
